@@ -70,13 +70,18 @@ int main(void) {
                 printf(k < 2 ? " " : "");
             }
             clear_mocks();
-        } else if (!strncmp(line, "setc ", 5)) {
-            int bufsize, off, size; sscanf(line, "setc %d %d %d %32767s", &bufsize, &off, &size, hx);
+        } else if (!strncmp(line, "setc ", 5) || !strncmp(line, "setw ", 5) || !strncmp(line, "setp ", 5)) {
+            int bufsize, off, size; sscanf(line + 5, "%d %d %d %32767s", &bufsize, &off, &size, hx);
             size_t n = unhex(hx, bytes);
             unsigned char *src = (unsigned char *)malloc(n ? n : 1); memcpy(src, bytes, n);
             unsigned char *buf = (unsigned char *)malloc(bufsize); memset(buf, 0xAA, bufsize);
-            expect(f_out, will_set_contents_of_output_parameter(out, src, size));
+            /* "setc": the setter alone; "setw": behind a when() clause for the same parameter; "setp": behind a capture of it */
+            void *seen = NULL;
+            if (line[3] == 'w') expect(f_out, when(out, is_non_null), will_set_contents_of_output_parameter(out, src, size));
+            else if (line[3] == 'p') expect(f_out, will_capture_parameter(out, seen), will_set_contents_of_output_parameter(out, src, size));
+            else expect(f_out, will_set_contents_of_output_parameter(out, src, size));
             f_out(buf + off);
+            if (line[3] == 'p' && seen != buf + off) nfail += 100;
             clear_mocks();
             hexout(buf, bufsize);
             free(buf); free(src);
